@@ -1871,4 +1871,35 @@ pub mod verif_hooks {
             Err(err) => Err(parsing_error_class(&err)),
         })
     }
+    /// What `RawTablet::from_custom_payload` refuses a payload with; the deserialisation error is
+    /// handed out as it is (so that its leaf kind can be inspected).
+    #[derive(Debug)]
+    pub enum VerifPayloadError {
+        Deserialization(crate::deserialize::DeserializationError),
+        TypeCheck,
+        ShardNum,
+        WrongTokenRange,
+    }
+
+    /// `RawTablet::from_custom_payload(payload)`, decoded content and the full error visible.
+    #[allow(clippy::type_complexity)]
+    pub fn raw_tablet_from_payload_full(
+        payload: &HashMap<String, Bytes>,
+    ) -> Option<Result<(i64, i64, Vec<(Uuid, Shard)>), VerifPayloadError>> {
+        Some(match RawTablet::from_custom_payload(payload)? {
+            Ok(raw) => Ok((
+                raw.first_token.value(),
+                raw.last_token.value(),
+                raw.replicas.replicas,
+            )),
+            Err(TabletParsingError::Deserialization(e)) => {
+                Err(VerifPayloadError::Deserialization(e))
+            }
+            Err(TabletParsingError::TypeCheck(_)) => Err(VerifPayloadError::TypeCheck),
+            Err(TabletParsingError::ShardNum(_)) => Err(VerifPayloadError::ShardNum),
+            Err(TabletParsingError::WrongTokenRange(_, _)) => {
+                Err(VerifPayloadError::WrongTokenRange)
+            }
+        })
+    }
 }
